@@ -32,6 +32,7 @@ import (
 	"github.com/kubeshark/base/pkg/api"
 	amqp "github.com/kubeshark/base/pkg/extensions/amqp"
 	"github.com/rs/zerolog"
+	stg "verif/harness/stage"
 
 	"verif/harness/mock"
 )
@@ -56,16 +57,17 @@ type halfOut struct {
 }
 
 type itemOut struct {
-	By   string        `json:"by"` // half whose reader completed the pair
-	RqM  string        `json:"rqm"`
-	Rq   interface{}   `json:"rq"`
-	RsM  string        `json:"rsm"`
-	Rs   interface{}   `json:"rs"`
-	CI   []string      `json:"ci"` // ClientIP ClientPort ServerIP ServerPort
+	By   string      `json:"by"` // half whose reader completed the pair
+	RqM  string      `json:"rqm"`
+	Rq   interface{} `json:"rq"`
+	RsM  string      `json:"rsm"`
+	Rs   interface{} `json:"rs"`
+	CI   []string    `json:"ci"` // ClientIP ClientPort ServerIP ServerPort
 	raw  *api.OutputChannelItem
 	Stg  string        `json:"stage,omitempty"`
 	Rep  string        `json:"rep,omitempty"`
 	Misc []interface{} `json:"-"`
+	C16  *stg.Result   `json:"c16,omitempty"`
 }
 
 type caseOut struct {
@@ -540,6 +542,8 @@ func main() {
 			out := runCase(&ci, true)
 			for i := range out.Items {
 				out.Items[i].Stg, out.Items[i].Rep = stageItem(out.Items[i].raw)
+				r := stg.Run(&api.Extension{Dissector: dissector}, out.Items[i].raw, false)
+				out.Items[i].C16 = &r
 			}
 			enc.Encode(out)
 		case "cost":
